@@ -228,3 +228,32 @@ CASES += [
     dict(id='c08-eq-argmix-operands-swapped', prop='C08', file=AC, expect=None,
          old="         if (argi.key() == other_argi.key())", new="         if (other_argi.key() == argi.key())"),
 ]
+
+CASES += [
+    dict(id='c05-storage-mismatch-of-key-with-itself', prop='C05', file=ST, expect='R*',
+         old="         if (entry.mismatch( key))", new="         if (key.mismatch( key))"),
+    dict(id='c05-storage-equal-of-entry-with-itself', prop='C05', file=ST, expect='R*',
+         old="         if (entry == key)\n            throw E( \"argument with key '\" + format::toString( key)\n                     + \"' stored already\");",
+         new="         if (entry == entry.key())\n            throw E( \"argument with key '\" + format::toString( key)\n                     + \"' stored already\");"),
+    dict(id='c05-data-mismatch-compares-own-key', prop='C05', file=ST, expect='R*',
+         old="      return mKey.mismatch( other);", new="      return mKey.mismatch( mKey);"),
+]
+
+CASES += [
+    dict(id='c05-findarg-exact-compares-entry-with-itself', prop='C05', file=AC, expect='R*',
+         old="      if (argi == key)\n         return argi.data().get();\n\n      if (mAbbrAllowed", new="      if (argi == argi.key())\n         return argi.data().get();\n\n      if (mAbbrAllowed"),
+    dict(id='c05-findarg-prefix-of-itself', prop='C05', file=AC, expect='R*',
+         old="      if (mAbbrAllowed && argi.key().startsWith( key))", new="      if (mAbbrAllowed && argi.key().startsWith( argi.key()))"),
+    dict(id='c05-findarg-prefix-reversed', prop='C05', file=AC, expect='R*',
+         old="      if (mAbbrAllowed && argi.key().startsWith( key))", new="      if (mAbbrAllowed && key.startsWith( argi.key()))"),
+    dict(id='c05-findexact-compares-entry-with-itself', prop='C05', file=AC, expect='R*',
+         old="      if (argi == key)\n         return argi.data().get();\n   } // end for\n\n   return nullptr;", new="      if (argi == argi.key())\n         return argi.data().get();\n   } // end for\n\n   return nullptr;"),
+    dict(id='c05-findarg-returns-other-entry', prop='C05', file=AC, expect='R*',
+         old="      if (argi == key)\n         return argi.data().get();\n\n      if (mAbbrAllowed", new="      if (argi == key)\n         return mArguments.begin()->data().get();\n\n      if (mAbbrAllowed"),
+]
+
+CASES += [
+    dict(id='c03-list-arg-vars-at-most-once', prop='C03', file=H, expect='R10',
+         old="   arg_hdl->setCardinality();\n\n   return internAddArgument( arg_hdl, key, desc);\n} // Handler::addArgumentListArgVars",
+         new="   return internAddArgument( arg_hdl, key, desc);\n} // Handler::addArgumentListArgVars"),
+]
